@@ -78,6 +78,7 @@ type Rec struct {
 	// direct oracle c08-framing-rejected: the framing fields of the message under construction, judged by
 	// FramingRule when the parser reports OnContentLength (i.e. has accepted the framing metadata)
 	curHdrs   [][2]string
+	curCode   int // status code of the response under construction (0: a request)
 	pendingTr string   // trailer-rule verdict to be raised by the next callback after OnContentLength
 	Framing   []string // violations found (drained by the executor)
 }
@@ -182,6 +183,7 @@ func (r *Rec) OnProto(p *nbhttp.Parser, s string) error {
 }
 func (r *Rec) OnStatus(p *nbhttp.Parser, code int, s string) {
 	r.Evs = append(r.Evs, fmt.Sprintf("status %d %s", code, Hx(s)))
+	r.curCode = code
 	r.Inner.OnStatus(p, code, s)
 }
 func (r *Rec) OnHeader(p *nbhttp.Parser, k, v string) {
@@ -191,6 +193,11 @@ func (r *Rec) OnHeader(p *nbhttp.Parser, k, v string) {
 }
 func (r *Rec) OnContentLength(p *nbhttp.Parser, n int) {
 	rej, rejTr, want := FramingRule(r.curHdrs)
+	if c := r.curCode; c/100 == 1 || c == 204 || c == 304 {
+		// RFC 7230 3.3.3 rule 1: no body, hence no trailer section, whatever the (still validated) framing fields say
+		want, rejTr = 0, ""
+	}
+	r.curCode = 0
 	if rej != "" {
 		r.Framing = append(r.Framing, "accepted although "+rej)
 	} else if int64(n) != want {
